@@ -44,7 +44,7 @@ type in struct {
 	Repl  *replIn `json:"repl,omitempty"`
 	Off   int64   `json:"off,omitempty"`
 	SNum  bool    `json:"s_is_number,omitempty"` // pass the subject (decimal digits) as a Lua number
-	Kind  int     `json:"kind,omitempty"`        // fn=big: 0 = find(("a"):rep(N), "a*"), 1 = find("abc", ("("):rep(N))
+	Kind  int     `json:"kind,omitempty"`        // fn=big: 0 = find(("a"):rep(N), "a*"), 1 = find("abc", ("("):rep(N)), 2 = gsub("a","a",("%%"):rep(N)), 3 = gsub("ab","b",("%0%%"):rep(N))
 	N     int64   `json:"n,omitempty"`
 	Plain bool    `json:"plain,omitempty"` // find: pass `true` as 4th argument ...
 	Extra int     `json:"extra,omitempty"` // ... followed by this many nil arguments
@@ -244,8 +244,24 @@ func runReal(c in) (o out) {
 		var kind, msg string
 		if c.Kind == 0 {
 			res, kind, msg = pcall(L, L.GetField(strlib, "find"), lua.LString(strings.Repeat("a", int(c.N))), lua.LString("a*"))
-		} else {
+		} else if c.Kind == 1 {
 			res, kind, msg = pcall(L, L.GetField(strlib, "find"), lua.LString("abc"), lua.LString(strings.Repeat("(", int(c.N))))
+		} else {
+			// long replacement strings: the result is reported as (length, count, number of '%')
+			if c.Kind == 2 {
+				res, kind, msg = pcall(L, L.GetField(strlib, "gsub"), lua.LString("a"), lua.LString("a"), lua.LString(strings.Repeat("%%", int(c.N))))
+			} else {
+				res, kind, msg = pcall(L, L.GetField(strlib, "gsub"), lua.LString("ab"), lua.LString("b"), lua.LString(strings.Repeat("%0%%", int(c.N))))
+			}
+			if kind == "ok" {
+				if len(res) == 2 {
+					if rs, ok := res[0].(lua.LString); ok {
+						res = []lua.LValue{lua.LNumber(len(rs)), res[1], lua.LNumber(strings.Count(string(rs), "%"))}
+					}
+				} else {
+					bad = append(bad, "gsub did not return two values")
+				}
+			}
 		}
 		o = out{Kind: kind, Msg: msg, Vals: conv(res)}
 	case "gsub":
